@@ -149,6 +149,14 @@ def classify_extend_interval(ref, got, pts, eps):
             break
     if cand is None:
         return None
+    # F9 is about stops *copied verbatim* between the two models: both sides must begin and end their colour line at
+    # the same offsets (a side that dropped or moved an end stop is something else)
+    try:
+        ra, rb, ga, gb = ref.stops[0][0], ref.stops[-1][0], got.stops[0][0], got.stops[-1][0]
+    except (AttributeError, IndexError, TypeError):
+        return None
+    if abs(ra - ga) > 1e-3 or abs(rb - gb) > 1e-3:  # (generated SVG rounds offsets to 3 decimals)
+        return None
     q = copy.copy(got if cand == "got" else ref)
     q.period = (0.0, 1.0)
     bad, _ = compare_paint(ref if cand == "got" else q, q if cand == "got" else got, pts, eps)
